@@ -2,6 +2,7 @@ package c10
 
 import (
 	"fmt"
+	"os"
 	"sort"
 	"strings"
 	"sync"
@@ -37,7 +38,8 @@ var packOps = []string{"split", "merge", "extract", "extractnaive", "repack", "r
 
 func genPackCase(t *rapid.T) PackCase {
 	var c PackCase
-	c.RLWE = h.GenRLWESpec(t, h.RLWEOpts{MinLogN: 5, MaxLogN: 7, MinQ: 1, MaxQ: 2, MinP: 1, MaxP: 1, MinBits: 45, MaxBits: 58, PBits: 60, DefaultDists: true})
+	plo, phi := bigLogN(t, 5, 7)
+	c.RLWE = h.GenRLWESpec(t, h.RLWEOpts{MinLogN: plo, MaxLogN: phi, MinQ: 1, MaxQ: 2, MinP: 1, MaxP: 1, MinBits: 45, MaxBits: 58, PBits: 60, DefaultDists: true})
 	c.Keys = pick(t, "keys", "all", "all", "switch")
 	c.LogNSmall = c.RLWE.LogN - rapid.IntRange(1, 2).Draw(t, "drop")
 	if c.Keys == "same" {
@@ -253,7 +255,7 @@ func runPack(c PackCase, rec *h.Rec) error {
 	return nil
 }
 
-var propPack = h.NewProp("TestPropRingPackingCopy", h.Budget{Quick: 120, Thorough: 4800}, genPackCase, runPack)
+var propPack = h.NewProp("TestPropRingPackingCopy", h.Budget{Quick: 120, Thorough: 2400}, genPackCase, runPack)
 
 func TestPropRingPackingCopy(t *testing.T) { propPack.Check(t) }
 
@@ -343,6 +345,15 @@ func getBootEnv(variant string, eph bool) *bootEnv {
 }
 
 func runBoot(c BootCase, rec *h.Rec) error {
+	if !h.Thorough() {
+		// quick tier: one cheap case on shard 0 only (setup of the bootstrapping keys under -race dominates the cost);
+		// the property lives in the thorough tier
+		if os.Getenv("VERIF_SHARD") != "" && os.Getenv("VERIF_SHARD") != "0" {
+			rec.Class("skipped-in-quick-tier")
+			return nil
+		}
+		c.Many, c.Parallel, c.UseBefore = 1, false, false
+	}
 	e := getBootEnv(c.Variant, c.Eph)
 	h.SeedRand(c.Seed)
 	if e.err != nil {
@@ -446,6 +457,6 @@ func runBoot(c BootCase, rec *h.Rec) error {
 	return nil
 }
 
-var propBoot = h.NewProp("TestPropBootstrappingCopy", h.Budget{Quick: 4, Thorough: 64}, genBootCase, runBoot)
+var propBoot = h.NewProp("TestPropBootstrappingCopy", h.Budget{Quick: 4, Thorough: 32}, genBootCase, runBoot)
 
 func TestPropBootstrappingCopy(t *testing.T) { propBoot.Check(t) }
